@@ -511,8 +511,32 @@ func checkTarget(p *load.Program, r *kit.Report) {
 				badC = "target above MaxWork is not replaced by MaxWork"
 			}
 		}
+		// the value returned is the target object itself, possibly through a phi of an expanded
+		// helper's result or as the result of a chained method on it (`target.Set(MaxWork)` returns
+		// its receiver)
+		var isTgt func(v ssa.Value, depth int) bool
+		isTgt = func(v ssa.Value, depth int) bool {
+			if depth > 4 {
+				return false
+			}
+			if v == ssa.Value(tgt) || bigArg(v) == ssa.Value(tgt) || kit.Strip(v) == ssa.Value(tgt) {
+				return true
+			}
+			if ph, ok := v.(*ssa.Phi); ok {
+				for _, e := range ph.Edges {
+					if kit.IsNilConst(e) {
+						continue
+					}
+					if !isTgt(e, depth+1) {
+						return false
+					}
+				}
+				return true
+			}
+			return false
+		}
 		for _, ret := range kit.Returns(f) {
-			if kit.ReturnErrClass(ret) == kit.ErrNil && kit.RetOperand(ret, 0) != ssa.Value(tgt) {
+			if kit.ReturnErrClass(ret) == kit.ErrNil && !isTgt(kit.RetOperand(ret, 0), 0) {
 				badC = "Target returns something other than the capped target"
 			}
 		}
@@ -772,12 +796,8 @@ func checkMedian(p *load.Program, r *kit.Report) {
 		if f2 != timeF {
 			return 0, false
 		}
-		u, ok := base.(*ssa.UnOp)
-		if !ok {
-			return 0, false
-		}
-		ia, ok := u.X.(*ssa.IndexAddr)
-		if !ok {
+		ia := sampleElem(base)
+		if ia == nil {
 			return 0, false
 		}
 		return kit.ConstInt(ia.Index)
@@ -885,11 +905,7 @@ func checkMedian(p *load.Program, r *kit.Report) {
 			badM = "returned time is not a sample's time"
 			continue
 		}
-		u, _ := base.(*ssa.UnOp)
-		var ia *ssa.IndexAddr
-		if u != nil {
-			ia, _ = u.X.(*ssa.IndexAddr)
-		}
+		ia := sampleElem(base)
 		if ia == nil {
 			badM = "returned sample is not an element of the list"
 			continue
@@ -904,7 +920,7 @@ func checkMedian(p *load.Program, r *kit.Report) {
 		}
 		// time and work from the same element
 		f3, base3 := kit.LoadedField(kit.RetOperand(ret, 1))
-		if f3 == nil || f3.Name() != "work" || base3 != base {
+		if f3 == nil || f3.Name() != "work" || (base3 != base && (sampleElem(base3) == nil || sampleElem(base3) != sampleElem(base))) {
 			badM = "returned work is not the work of the sample whose time is returned"
 		}
 	}
@@ -1154,4 +1170,51 @@ func checkRetentionDepth(p *load.Program, r *kit.Report, rule string) {
 			r.Check(bad == "", rule, key, posOf(p, c), "computed depth ≥ MaxBranchDepth + window − 1 for MaxBranchDepth 0, default, 1000", bad)
 		}
 	}
+}
+
+
+// sampleElem: the list element a sample value was taken from — `list[i]` holding a pointer
+// (load of the element address) or the struct itself (the element address, or a copy loaded from it).
+func sampleElem(base ssa.Value) *ssa.IndexAddr {
+	switch x := base.(type) {
+	case *ssa.IndexAddr:
+		return x
+	case *ssa.UnOp:
+		if x.Op == token.MUL {
+			if ia, ok := x.X.(*ssa.IndexAddr); ok {
+				return ia
+			}
+			// a local copy of the element: `result := list[k]`
+			if a, ok := x.X.(*ssa.Alloc); ok {
+				var src *ssa.IndexAddr
+				n := 0
+				for _, ref := range *a.Referrers() {
+					if st, ok := ref.(*ssa.Store); ok && st.Addr == ssa.Value(a) {
+						n++
+						if u, ok := st.Val.(*ssa.UnOp); ok && u.Op == token.MUL {
+							src, _ = u.X.(*ssa.IndexAddr)
+						}
+					}
+				}
+				if n == 1 {
+					return src
+				}
+			}
+		}
+	case *ssa.Alloc:
+		var src *ssa.IndexAddr
+		n := 0
+		for _, ref := range *x.Referrers() {
+			if st, ok := ref.(*ssa.Store); ok && st.Addr == ssa.Value(x) {
+				n++
+				if u, ok := st.Val.(*ssa.UnOp); ok && u.Op == token.MUL {
+					src, _ = u.X.(*ssa.IndexAddr)
+				}
+			}
+		}
+		if n == 1 {
+			return src
+		}
+	}
+	return nil
 }
